@@ -31,6 +31,13 @@ class _Boom:
         raise RuntimeError("cannot serialise")
 
 
+class _BadRepr:
+    """Unserialisable, and even its repr() fails."""
+
+    def __repr__(self):
+        raise RuntimeError("no repr")
+
+
 def _items():
     """name -> (factory, expected wire value or None when unserialisable)"""
     from chuk_mcp.protocol.messages.json_rpc_message import (
@@ -67,6 +74,8 @@ def _items():
         ("unserialisable-object", lambda: object(), None),
         ("unserialisable-dict-with-set", lambda: {"jsonrpc": "2.0", "id": 1, "method": "m", "params": {"s": {1, 2}}}, None),
         ("unserialisable-model", lambda: _Boom(), None),
+        ("unserialisable-bad-repr", lambda: _BadRepr(), None),
+        ("unserialisable-too-deep-dict", lambda: {"jsonrpc": "2.0", "id": 1, "method": "m", "params": {"d": _deep(5000)}}, None),
     ]
     return table
 
